@@ -427,3 +427,129 @@ func cliPipeWorkload(count map[string]int) *Workload {
 		ShrinkEvals: 60,
 	}
 }
+
+// ---------------------------------------------------------------- C02 at the process boundary
+//
+// The rule schedule as the real binary produces it: several named inputs,
+// each a regular file or a named pipe, or standard input behind a file, a
+// file at an offset or a pipe; the reference schedule model predicts stdout.
+
+type CliSchedCase struct {
+	Stream    *StreamCase `json:"stream"`
+	Kinds     []string    `json:"kinds"` // per file: regular | fifo
+	Stdin     bool        `json:"stdin"` // the (single) input arrives on standard input
+	StdinMode string      `json:"stdin_mode,omitempty"`
+	ViaF      bool        `json:"via_f"`
+}
+
+func runCliSched(cc *CliSchedCase, keep bool) Outcome {
+	log := newEventLog(keep)
+	o := Outcome{Probes: map[string]int{}, Faults: map[string]int{}}
+	finish := func() Outcome {
+		o.LogHash, o.Log, o.Steps = log.Hash(), log.lines, log.seq
+		return o
+	}
+	c := cc.Stream
+	if jqawkBin() == "" {
+		o.Class, o.Msg = "harness", "SIM_JQAWK not set"
+		return finish()
+	}
+	if c == nil || c.Prog == nil || len(c.Files) == 0 {
+		o.Skipped = "needs a trace program and at least one input"
+		return finish()
+	}
+	if c.ProgText == "" {
+		c.ProgText = c.Prog.Render()
+	}
+	pc := &ProcCase{Prog: c.ProgText, ViaF: cc.ViaF}
+	var mfiles []ModelFile
+	for i, f := range c.Files {
+		ref := ScanStream(f.Data)
+		if ref.Status != RefClean || ref.Dubious {
+			o.Skipped = "needs clean streams"
+			return finish()
+		}
+		var vals []*JVal
+		for _, v := range ref.Values {
+			vals = append(vals, v.V)
+		}
+		name := f.Name
+		if cc.Stdin {
+			if i > 0 {
+				break
+			}
+			name = "<stdin>"
+			pc.Stdin, pc.StdinMode = f.Data, cc.StdinMode
+		} else {
+			kind := "regular"
+			if i < len(cc.Kinds) && cc.Kinds[i] == "fifo" {
+				kind = "fifo"
+				o.Faults["input_fifo"]++
+			}
+			pc.Inputs = append(pc.Inputs, ProcFile{Name: name, Data: f.Data, Kind: kind})
+		}
+		mfiles = append(mfiles, ModelFile{name, vals})
+	}
+	model := RunModel(c.Prog, mfiles, nil, true)
+	if !model.OK {
+		o.Skipped = "outside model domain: " + model.Why
+		return finish()
+	}
+	res, trouble := runBinary(pc, "")
+	if trouble != nil {
+		o.Class, o.Msg = "harness", trouble.Error()
+		return finish()
+	}
+	log.add('P', 0, "EXEC exit=%d stdout_len=%d stderr=%q", res.exit, len(res.stdout), truncate(res.stderr, 200))
+	o.Nontrivial = len(model.Lines) >= 2
+	o.Shape = fmt.Sprintf("cli-sched|files=%d|stdin=%v%s|rules=%d", len(mfiles), cc.Stdin, cc.StdinMode, bucketLen(len(c.Prog.Rules)))
+	if res.signaled || crashSignature(res.stderr) {
+		o.Class, o.Msg = "process-crash", truncate(res.stderr, 400)
+		return finish()
+	}
+	if res.exit != 0 || res.stdout != model.Text() {
+		o.Class = "stdout-mismatch"
+		o.Msg = fmt.Sprintf("exit status %d (stderr %q); stdout differs from the reference schedule\n--- expected ---\n%s--- observed ---\n%s", res.exit, truncate(res.stderr, 200), truncate(model.Text(), 700), truncate(res.stdout, 700))
+	}
+	return finish()
+}
+
+func genCliSchedCase(t *Tape) *CliSchedCase {
+	c := genStreamCase(t, streamGenOpts{mode: "c02", maxFiles: 3, maxVals: 4, sigProb: 20, benign: true})
+	c.Selectors = nil
+	c.Fault = nil
+	if len(c.Files) == 0 {
+		c.Files = []SimFile{{Name: "f0.json"}}
+	}
+	seen := map[string]bool{}
+	for i := range c.Files {
+		c.Files[i].Sched = nil
+		// one path per input
+		if n := c.Files[i].Name; seen[n] || strings.ContainsAny(n, "<>") || n == "" {
+			c.Files[i].Name = fmt.Sprintf("in%d.json", i)
+		}
+		seen[c.Files[i].Name] = true
+	}
+	sanitizeSelectors(c)
+	cc := &CliSchedCase{Stream: c, ViaF: t.Chance(1, 3)}
+	if len(c.Files) == 1 && t.Chance(1, 3) {
+		cc.Stdin = true
+		cc.StdinMode = []string{"", "offset", "pipe"}[t.Draw(3)]
+	} else {
+		for range c.Files {
+			cc.Kinds = append(cc.Kinds, []string{"regular", "regular", "fifo"}[t.Draw(3)])
+		}
+	}
+	return cc
+}
+
+func cliSchedWorkload(count map[string]int) *Workload {
+	return &Workload{
+		Name:        "cli-schedule",
+		Count:       func(tier string) int { return count[tier] },
+		Gen:         func(i int, t *Tape, tier string) any { return genCliSchedCase(t) },
+		Run:         func(c any, keep bool) Outcome { return runCliSched(c.(*CliSchedCase), keep) },
+		New:         func() any { return &CliSchedCase{} },
+		ShrinkEvals: 200,
+	}
+}
